@@ -925,7 +925,36 @@ class Req:
                         if s["k"] == "assign" and s["rv"]["k"] == "aggregate" and s["rv"].get("agg") == "adt" and "level" in s["rv"].get("fields", []):
                             le = ex.of_operand(s["rv"]["ops"][s["rv"]["fields"].index("level")])
                             lvl_ok = le == end
-        return (some and inloop and lvl_ok, "parser pushes Some(..) once per iteration of 0..level and stores that level: some=%s loop=%s level=%s" % (some, inloop, lvl_ok))
+        how = "for 0..level"
+        if not lvl_ok and loops:
+            # the same count written as `while vec.len() < level { .. push(Some(..)) }`: at the loop exit len >= level, and the
+            # only growth is this push, taken only while len < level: len == level
+            own = flow.resolve_owner(f, t["args"][0], want_mut=True)
+            level_e = None
+            for _, _, s in f.iter_stmts():
+                if s["k"] == "assign" and s["rv"]["k"] == "aggregate" and s["rv"].get("agg") == "adt" and "level" in s["rv"].get("fields", []):
+                    level_e = ex.of_operand(s["rv"]["ops"][s["rv"]["fields"].index("level")])
+            body = loops[0][1]
+            for sb, st in f.iter_terms():
+                if st["k"] != "switch" or sb not in body:
+                    continue
+                l = core.op_local(st["discr"])
+                ds = f.defs_of(l) if l is not None else []
+                if len(ds) != 1 or ds[0][1] == "term" or ds[0][2]["rv"]["k"] != "binop":
+                    continue
+                rv = ds[0][2]["rv"]
+                if rv["op"] != "Lt":
+                    continue
+                ao = flow.origin(f, rv["a"])
+                a_is_len = ao[0] == "call" and core.strip_generics(core.callee_path(ao[2]) or "").endswith("ArrayVec::len") and flow.resolve_owner(f, ao[2]["args"][0]) == own
+                b_is_level = level_e is not None and ex.of_operand(rv["b"]) == level_e
+                exits = [tg for v, tg in st["targets"] if v == 0]
+                stays = st.get("otherwise")
+                if a_is_len and b_is_level and exits and exits[0] not in body and stays in body and f.dominates(sb, b):
+                    # no other way out of the loop into the Some-return than through this exit
+                    lvl_ok = True
+                    how = "while len < level"
+        return (some and inloop and lvl_ok, "parser pushes Some(..) once per iteration (%s) and stores that level: some=%s loop=%s level=%s" % (how, some, inloop, lvl_ok))
 
     def r_chain_array_one_selected(self):
         news = [f for f in self.F.fns.values() if f.j.get("name") == "new" and f.j.get("impl", {}).get("self_ty", {}).get("path") == "lm_ots::verify::HashChainArray"]
